@@ -627,6 +627,10 @@ LIST_METHODS = {"append": _list_append, "extend": _list_extend}
 DICT_METHODS = {"get": _dict_get, "keys": _dict_keys}
 STR_METHODS = {"lower": _str_lower, "endswith": _str_endswith}
 
+# A-NAN: NaN is a distinguished real constant; only storing it and testing for it (isnan) are meaningful - a contract that lets it reach
+# arithmetic or an ordering comparison would be wrong about IEEE semantics, so such contracts must keep it out by precondition
+NAN = z3.Real("u_NaN")
+
 NP = ModV("np", {
     "sqrt": _unary(_np_sqrt), "abs": _unary(_np_abs), "absolute": _unary(_np_abs), "sin": _unary(_np_sin),
     "cos": _unary(_np_cos), "log10": _unary(_np_log10), "log": _unary(_np_log), "exp": _unary(_np_exp),
@@ -639,7 +643,7 @@ NP = ModV("np", {
     "round": FuncV(_np_round, "np.round"), "diff": FuncV(_np_diff, "np.diff"),
     "sum": _reduce(SUM), "mean": _reduce(MEAN), "max": _np_ext(False), "min": _np_ext(True),
     "argmin": _np_argext(ARGMIN), "argmax": _np_argext(ARGMAX),
-    "nan": None, "double": FuncV(_float, "np.double"),
+    "nan": NAN, "isnan": _unary(lambda x: real(x) == NAN, "bool"), "double": FuncV(_float, "np.double"),
 })
 
 def _zip(ex, st, args, kw, node):
